@@ -29,18 +29,18 @@
                       after ret), the potential phi3, one tick in either loop (step_normal3, step_ret3), seg_run3
      this file        initial state (init3_G3), the theorems; the sequential side is Mvp60RefSeg.seg_seq_fin.
 
-   NOT PROVED: the extension to forward control flow (branches / jumps strictly ahead, no div / rem / jalr) on
-   single-assignment programs, the analogue of mvp61_refines_seq_forward.  No counterexample is known (search
-   over 178 000 programs).  What a proof needs beyond this development:
-     - BI with ctx.sequenceID = sq > 0 (tags pcz k + 1000 sq, Mvp61RefFront.sid), bi_pcb = true while a
-       conditional branch is in flight, at most one such branch (handleRunner stops at a second one);
-     - the alias tables across RATCommit / RATRollback: committedRAT = sequential file after the branch,
-       transactionRAT empty (bi_crat / bi_trat relative to a base index instead of regs0), including the results
-       of the shadow of a taken branch that were written with larger tags and are filtered by FindValues;
-     - the two flush loops (NFlushE: execute units finish older instructions, Pre hook drops younger ones;
-       NFlushW: write units drop results younger than the branch), do_flush3, a Fresh3 state per segment and the
-       segment induction of Mvp61RefProofs.fwd_core1; forwarding channels whose receiver is flushed.
-   The straight-line development is the segment lemma such a proof would iterate. *)
+   THE EXTENSION to forward control flow (branches / jumps strictly ahead, no div / rem / jalr) on single-assignment
+   programs, the analogue of mvp61_refines_seq_forward, is PROVED in Mvp63RefFwdDefs.v, Mvp63RefFwdRat.v, Mvp63RefFwdFront.v,
+   Mvp63RefFwdInv.v, Mvp63RefFwdExec.v, Mvp63RefFwdStep.v, Mvp63RefFwdFlush.v, Mvp63RefFwdProofs.v, Mvp63RefFwdThm.v
+   (mvp63_refines_seq_ssa_forward; Props/C01_mvp63_fwd.v).  What it added to this development:
+     - BI with ctx.sequenceID = sq > 0 (tags pcz k + 1000 sq) and a base index (BIq), pendingConditionalBranch = true only
+       while a conditional branch is on the execute bus, a second branch never dispatched in the same cycle;
+     - the alias tables across RATCommit / RATRollback (TabOK: what registerRead sees is the sequential file after the
+       written-back instructions; every tag in transactionRAT is older than the branch, so FindValues keeps all of it);
+     - the shadow executed in the same tick behind a taken branch (its result waits in the write-bus buffer with a larger
+       tag and is dropped by the write unit of the flush loop), the two flush loops, do_flush3, a Fresh3 state per segment
+       and the segment induction of Mvp61RefProofs.fwd_core1.
+   The straight-line development below is kept as it is (it also gives the cycle bounds). *)
 From Coq Require Import ZArith List Bool Lia.
 From Maj Require Import Base.Outcome Base.GoInt Base.GoTypes Isa.Spec Isa.Seq Isa.Refine Gen.Opcodes.
 From Maj Require Import Gen.Latency Comp.Cache Comp.Rat Comp.RatProofs.
@@ -367,7 +367,7 @@ Proof.
 Qed.
 
 (* ------------------------------------------------------------------ *)
-(* evidence for the extension that is NOT proved: forward control flow on a single-assignment program.
+(* an instance of the extension (proved in Mvp63RefFwdThm.v): forward control flow on a single-assignment program.
    li x5,1 ; li x6,2 ; beq x5,x6,L1 (not taken) ; addi x7,x5,3 ; bne x5,x6,L2 (taken) ; addi x8,x7,1 (shadow) ;
    L1/L2: addi x9,x7,5 ; j L3 ; addi x10,x9,1 (skipped) ; L3: addi x11,x9,2 ; ret
    - class fwd_ok of Mvp60RefProofs.v, ssa, regs_ok, register-only, NOT straight;
